@@ -63,6 +63,50 @@ def _dtype_tag(repo, m, e: ast.AST, env: dict[str, object], depth: int = 0):
     return None
 
 
+def error_class_reaches_the_caller(ctx, rep, rule: str) -> None:
+    """The NaN/Inf rejection leaves step() as a PreconditionerValueError: no `try` on the way up (in any function of the
+    repository from which a `raise PreconditionerValueError` is reachable) has a handler that would catch it — a handler for
+    PreconditionerValueError, ValueError, Exception, BaseException or a bare `except` — unless that handler re-raises the
+    exception it caught (`raise` / `raise <the bound name>`, no `from`-less replacement)."""
+    repo = ctx.repo
+    pts = ctx.engine("pts")
+    g = pts.call_graph()
+    pve = "PreconditionerValueError"
+    raisers = {fi.qual for fi in repo.funcs.values() for n in A.walk_no_nested(fi.node) if isinstance(n, ast.Raise) and n.exc is not None and pve in ast.unparse(n.exc)}
+    rep.floor(rule, "functions that raise PreconditionerValueError", len(raisers), 1)
+    # functions from which a raiser is reachable
+    reach = set(raisers)
+    changed = True
+    while changed:
+        changed = False
+        for q, cs in g.items():
+            if q not in reach and any(c in reach for c in cs):
+                reach.add(q)
+                changed = True
+    catching = {pve, "ValueError", "Exception", "BaseException"}
+    n = 0
+    for q in sorted(reach):
+        fi = repo.funcs.get(q)
+        if fi is None:
+            continue
+        for tr in [t for t in A.walk_no_nested(fi.node) if isinstance(t, ast.Try)]:
+            body = ast.Module(body=tr.body, type_ignores=[])
+            # can the body raise it?  a direct raise, or a call whose callee reaches a raiser
+            direct = any(isinstance(x, ast.Raise) and x.exc is not None and pve in ast.unparse(x.exc) for x in ast.walk(body))
+            via = any(any(c in reach for c in pts.callees(q, c_)) for c_ in A.calls(body, nested=True))
+            if not (direct or via):
+                continue
+            for h in tr.handlers:
+                names = {x.split(".")[-1] for x in ([ast.unparse(e) for e in h.type.elts] if isinstance(h.type, ast.Tuple) else [ast.unparse(h.type)])} if h.type is not None else {"<bare>"}
+                if not (names & catching or "<bare>" in names):
+                    continue
+                n += 1
+                last = h.body[-1] if h.body else None
+                rethrows = isinstance(last, ast.Raise) and (last.exc is None or (isinstance(last.exc, ast.Name) and last.exc.id == h.name)) and last.cause is None
+                rep.ob(rule, f"error-class-reaches-the-caller:{short(q)}", rethrows, fi.loc(h), f"`except {', '.join(sorted(names))}` around code that can raise PreconditionerValueError" + (" re-raises the caught exception unchanged" if rethrows else " replaces or swallows it: the NaN/Inf rejection would leave step() as another exception class (or not at all)"))
+    rep.ob(rule, "error-class-reaches-the-caller:handlers-on-the-way-up", True, "", f"{len(reach)} function(s) can reach a `raise PreconditionerValueError`; {n} handler(s) on the way up could catch it", nontrivial=False)
+
+
 def run(ctx, rep) -> None:
     repo = ctx.repo
     pts = ctx.engine("pts")
@@ -75,6 +119,7 @@ def run(ctx, rep) -> None:
 
     rep.attempt("hyperparameters_from_group", hyperparameters_from_group, ctx, rep, "C13.5")
     rep.attempt("per_group_fresh", per_group_fresh, ctx, rep, "C13.5", ["distributed_shampoo.distributed_shampoo:DistributedShampoo._instantiate_shampoo_preconditioner_list"])
+    rep.attempt("error_class_reaches_the_caller", error_class_reaches_the_caller, ctx, rep, "C13.2")
     from .common import tensor_arguments_are_inputs
 
     rep.rule("C13.6", "the matrix routines never write into the tensors they are handed (the stored factor / eigenbasis passed as estimate survives a failure mid-routine unchanged)")
